@@ -86,6 +86,20 @@ def rand_format(rng):
     return "".join(out)
 
 
+DECOYS = ["#%Y", "#%B %Y", "#%Y-%m", "#%d", "#%H:%M", "#%Y-%m-%d", "%Y#%m", "#%b %d"]      # never match: no rendered string contains '#'
+
+
+def with_decoys(rng, fmt):
+    """the format list given to the library: the format under test among formats that do not match the string -
+    coarser ones before it, finer ones after it; the result must be the matching format's alone"""
+    r = rng.random()
+    if r < 0.45:
+        return [fmt]
+    before = rng.sample(DECOYS, rng.randint(1, 3)) if r < 0.85 else []
+    after = rng.sample(DECOYS, rng.randint(1, 2)) if r > 0.65 else []
+    return before + [fmt] + after
+
+
 def flags(fmt):
     return {"year": "%Y" in fmt or "%y" in fmt, "month": any(x in fmt for x in ("%m", "%b", "%B")), "day": "%d" in fmt,
             "time": "%H" in fmt or "%I" in fmt, "min": "%M" in fmt, "sec": "%S" in fmt, "us": "%f" in fmt}
@@ -152,7 +166,7 @@ def run(ctx):
             pd, pm = rng.choice(PREFS), rng.choice(PREFS)
             st = {"PREFER_DAY_OF_MONTH": pd, "PREFER_MONTH_OF_YEAR": pm}
             cases.append({"fmt": fmt, "fl": fl, "dt": [dt[0], dt[1], dt[2], dt[3], dt[4], dt[5], dt[6]], "pdom": pd, "pmoy": pm,
-                          "s": render(fmt, dt, names), "kw": {"languages": [lang], "date_formats": [fmt]}, "settings": st, "api": "ddp",
+                          "s": render(fmt, dt, names), "kw": {"languages": [lang], "date_formats": with_decoys(rng, fmt)}, "settings": st, "api": "ddp",
                           "probe": False, "lang": lang, "words": words})
 
         def rand_dt():
@@ -177,25 +191,51 @@ def run(ctx):
         for lang, v in sorted(vocab.items()):
             if lang == "en":
                 continue
-            months = range(12) if not ctx.quick() else rng.sample(range(12), 6)
-            names = {"B": [(x or [""])[0] for x in v["months"]], "b": [(x or [""])[0] for x in v["months"]],
-                     "A": [(x or [""])[0] for x in v["weekdays"]], "a": [(x or [""])[0] for x in v["weekdays"]]}
-            for mi in months:
-                if not names["B"][mi]:
-                    continue
+            first = {"B": [(x or [""])[0] for x in v["months"]], "A": [(x or [""])[0] for x in v["weekdays"]]}
+            # every listed single-meaning month name (all spelling variants), and every weekday name variant, of every
+            # language: the quantifier's "all languages' single-meaning month names" - a sample of months or the first
+            # variant only lets a defect confined to one name of one language escape
+            jobs = [("B", mi, w) for mi in range(12) for w in v["months"][mi]] + [("A", wi, w) for wi in range(7) for w in v["weekdays"][wi]]
+            if ctx.quick() and len(jobs) > 40:
+                keep = {(k, i) for k, i, _ in jobs}           # quick: every (month / weekday) once, plus a sample of the variants
+                firsts = [j for j in jobs if j[2] == first[j[0]][j[1]]]
+                rest = [j for j in jobs if j not in firsts]
+                jobs = firsts + rng.sample(rest, min(len(rest), 40 - min(40, len(firsts))))
+            for kind, idx, w in jobs:
+                names = {"B": list(first["B"]), "b": list(first["B"]), "A": list(first["A"]), "a": list(first["A"])}
                 # localized names are always translated to the FULL English names, so only the full-name
                 # directives can be served by the custom-format parser (a %b / %a format falls back to the
                 # heuristic parsers: recorded as an observation in DESIGN.md, outside this check's domain)
-                fmt = rng.choice(named if all(names["A"]) else [f for f in named if "%A" not in f and "%a" not in f]).replace("%b", "%B").replace("%a", "%A")
                 dt = rand_dt()
-                dt[1] = mi + 1
                 dt[2] = min(dt[2], 28)
+                if kind == "B":
+                    names["B"][idx] = names["b"][idx] = w
+                    dt[1] = idx + 1
+                    pool = [f for f in named if "%B" in f or "%b" in f]
+                    if not all(names["A"]):
+                        pool = [f for f in pool if "%A" not in f and "%a" not in f]
+                else:
+                    names["A"][idx] = names["a"][idx] = w
+                    if not all(names["B"]):
+                        continue
+                    # a date that falls on this weekday
+                    d0 = datetime.date(dt[0], dt[1], dt[2])
+                    d0 += datetime.timedelta(days=(idx - d0.weekday()) % 7)
+                    if d0.day > 28 or d0.year != dt[0]:
+                        d0 -= datetime.timedelta(days=7)
+                    dt[0], dt[1], dt[2] = d0.year, d0.month, d0.day
+                    pool = [f for f in named if "%A" in f or "%a" in f]
+                fmt = rng.choice(pool).replace("%b", "%B").replace("%a", "%A")
                 wd = datetime.date(dt[0], dt[1], dt[2]).weekday()
-                words = [names["B"][mi]] if ("%B" in fmt or "%b" in fmt) else []
-                if "%A" in fmt or "%a" in fmt:
+                words = [names["B"][dt[1] - 1]] if "%B" in fmt else []
+                if "%A" in fmt:
                     words.append(names["A"][wd])
+                if not all(words):
+                    continue
                 add(fmt, dt, names, lang, words)
-    results = core.run_cases(ctx, "harness.lib", "call_parse", cases)
+    # a share of the cases runs on parsers that were all constructed before any of them was used (state shared behind
+    # the constructor would surface as another case's result)
+    results = core.run_cases_prebuilt(ctx, cases, lambda i: i % 5 == 0 and not ctx.replay, size=5)
     records = []
     for i, (c, r) in enumerate(zip(cases, results)):
         if c["lang"] != "en":
@@ -213,7 +253,7 @@ def run(ctx):
     for t in tuples["REJECT"]:
         _, tid, kind, verdict, exp = t[:5]
         c, r = cases[tid], results[tid]
-        d = {"call": "DateDataParser(languages=[%r], settings=%r).get_date_data(%r, date_formats=[%r])" % (c["lang"], c["settings"], c["s"], c["fmt"])}
+        d = {"call": "DateDataParser(languages=[%r], settings=%r).get_date_data(%r, date_formats=%r)" % (c["lang"], c["settings"], c["s"], c["kw"]["date_formats"])}
         if kind == "abs":
             if any((c["lang"], w) in known for w in c.get("words", [])):
                 continue          # the shadowed names of the C05 findings: the heuristic fallback's answer, not the format machine's
